@@ -3,7 +3,7 @@
 from vlib.props import boxlevel as _b
 
 PROP = "C14"
-META = {"level": "exploration", "rule": _b.RULES[PROP]}
+META = {"level": "exploration", "rule": _b.RULES[PROP], "exhaustive_part": "every (parameters, box) of the small scope for the 18 documented bound-consistent types and affine_eq"}
 
 
 def jobs(tier):
